@@ -15,7 +15,7 @@ import random
 from gvmon.gen import c18 as G
 from gvmon.models import c18 as M
 
-RULE = ("seq: references of 2-4 sequences of 1-3000 bases over ACGTNacgtn wrapped at 1-100 columns; (seqid,start,end,strand) "
+RULE = ("seq: references of 2-4 sequences of 1-3000 bases over ACGTN + IUPAC ambiguity codes in both cases wrapped at 1-100 columns; (seqid,start,end,strand) "
         "with whole-sequence, single-base, first/last-base and line-wrap-boundary slices on + - and '.'; features from "
         "feature_from_line, Feature(...) and a database; non-trivial = minus strand; "
         "bed12: 1-5 transcripts per database (GFF3 with explicit transcript lines, GTF with inferred transcripts), 0-6 "
@@ -41,7 +41,7 @@ ASSUMPTIONS = [
     "convert.to_bed12 is judged on fields 1-3 and 10-12 only, and only for transcripts with >= 1 block child whose "
     "blocks span the transcript",
     "GTF transcripts are the inferred ones (extent = span of the exons, all other children inside that span)",
-    "sequence(): features lie inside the named sequence; alphabet ACGTN in both cases",
+    "sequence(): features lie inside the named sequence; alphabet ACGTN plus the IUPAC ambiguity codes, both cases; complement = the standard IUPAC table",
 ]
 QUICK_SHARDS = 4
 THOROUGH_SHARDS = 16
